@@ -13,6 +13,7 @@ import PycModel.Spec.Lexical
 import PycModel.Spec.Scoping
 import PycModel.Spec.TuGen
 import PycModel.Generated.LexTables
+import PycModel.GenExprDriver
 /-! Model driver: one request per line on stdin, one response per line on stdout. -/
 open PycModel PycModel.Proto
 
@@ -226,6 +227,10 @@ def handle (line : String) : String :=
         goT n (Spec.lcg r.2) (TuGen.tuCase r.1 :: acc)
     let cases := goT count.toNat! (Spec.lcg (seed.toNat! + 101)) []
     "\t".intercalate (cases.map fun (t, d) => rec [t, d])
+  | ["gx", dump] =>
+    match readDump dump with
+    | some v => "OK\t" ++ "\t".intercalate ((GenExprDriver.exprTokens v).map fun t => rec [t])
+    | none => "BADDUMP"
   | ["genast", dump] =>
     match readDump dump with
     | some v => "OK\t" ++ genStr false v ++ "\t" ++ genStr true v
